@@ -40,6 +40,9 @@ def transpose_relation(D, r):
         return nm.replace("xg_", "@@").replace("yg_", "xg_").replace("@@", "yg_")
 
     def tcoord(c):
+        if c.startswith("=") and c not in swapabs:
+            # a symbolic absolute position (=-1 + nx): the image exchanges nx and ny
+            return c.replace("nx", "@@").replace("ny", "nx").replace("@@", "ny")
         return swapabs.get(c, c)
     ids = {}
     for aid in A.atoms_of(r.expr):
@@ -53,7 +56,7 @@ def transpose_relation(D, r):
 
     def tdom(v):
         if isinstance(v, str):
-            return swapabs.get("=" + v, "=" + v)[1:]
+            return tcoord("=" + v)[1:]
         return (A.subst(v[0], sw), A.subst(v[1], sw))
     dom = dict(i=tdom(r.dom["j"]), j=tdom(r.dom["i"]))
     kind = {"row": "row", "col": "rowabs", "rowabs": "col"}[r.kind]
@@ -534,6 +537,41 @@ def row_1d_agree(check):
                     "%s state on i-faces (gradients substituted) == the 1D %s %s state on a uniform mesh: the 2D operator reproduces the 1D one row by row" % (side, recon1, side), key="row-" + side)
 
 
+def closure_1d_agree(check):
+    """non-periodic boundaries: the 2D closure of the face differences on the boundary lines == the 1D closure of the
+    face gradients at the two end faces (the first / last cell of every row is reconstructed as in 1D)"""
+    proj = check.proj
+    from .c11 import decoded
+    from ..stencil import NLin
+    f2 = proj.func("modeldisc.fvm2dcart.calc_bc_grad")
+    f1 = proj.func("modeldisc.fvm1d.calc_bc_grad")
+    D1, ci1, num1, L1, R1 = decoded(proj, "extrapolk", periodic=False)
+    g1 = D1.so.attrs["grad"][0]
+    ends = [(l, h, v) for l, h, v in g1.segs if (h - l).is_const() and (l.is_const() and l.b == 0 or not h.is_const() and (g1.length - h).is_const() and (g1.length - h).b == 0)]
+    if len(ends) != 2:
+        raise AnalysisError("the 1D face gradient does not have one closure segment per end (%d found)" % len(ends))
+    zero1 = all(v.is_zero() for l, h, v in ends)
+    for recon in ("extrapol2dk",):
+        D, stages, calls, got, ci = collect(proj, (1,), OPEN, recon)
+        A = D.eng.alg
+        rels = stages.get("calc_bc_grad", [])
+        lines = set()
+        for r in rels:
+            axis = "i" if r.kind == "col" else "j"
+            lines.add((r.fam, r.dom[axis]))
+            where = "%s [%s-differences, line %s=%s, non-periodic]" % (f2.qualname, "x" if r.fam == "if" else "y", axis, r.dom[axis])
+            if not zero1:
+                check.undecided("ROW-1D-AGREE", where, "the 1D closure %s.calc_bc_grad is not the zero gradient: the comparison with the 2D closure is outside what this rule decides" % f1.qualname, f2.loc())
+                continue
+            ok = r.expr.is_zero()
+            check.record("ROW-1D-AGREE", where, ok, "closure of the face difference is 0, as the 1D closure grad[0] = grad[-1] = 0 of %s" % f1.qualname if ok else
+                         "closure of the face difference is %s, but the 1D closure of %s sets the end-face gradients to 0: the first / last cell of a row is reconstructed with another slope than the same cell of the 1D scheme, rows of the 2D operator differ from the 1D operator next to walls / inlets / outlets" % (A.show(r.expr, 100), f1.qualname),
+                         f2.loc(), key="closure-%s-%s" % (r.fam, r.dom[axis]))
+        if zero1:
+            # an unwritten boundary face keeps the zero of the allocation: also the 1D closure
+            check.ok("ROW-1D-AGREE", "%s [non-periodic closure lines]" % f2.qualname, "%d closure relations on boundary lines %s compared with the 1D closure" % (len(rels), sorted(lines)), f2.loc())
+
+
 def seam_2d(check):
     """periodic closures of the 2D gradients == interior template wrapped modulo nx / ny"""
     proj = check.proj
@@ -716,6 +754,7 @@ def _body(check):
     check.guarded("DIR-TABLE", "modeldisc.fvm2dcart.calc_flux", lambda: dir_table(check))
     check.guarded("BC-2D-SITE", "modeldisc.fvm2dcart.calc_bc", lambda: bc_sites(check))
     check.guarded("ROW-1D-AGREE", "xnum", lambda: row_1d_agree(check))
+    check.guarded("ROW-1D-AGREE", "modeldisc.fvm2dcart.calc_bc_grad", lambda: closure_1d_agree(check))
     check.guarded("FLUX-1D-AGREE", "euler2d", lambda: flux_1d_agree(check))
     check.guarded("BC-1D-AGREE", "euler2d", lambda: bc_1d_agree(check))
     check.guarded("KAPPA-2D", "xnum.extrapol2dk", lambda: kappa_2d(check))
